@@ -6,8 +6,8 @@ class EventV1(Unit):
     """program = (sig0, 'inline'|'ctx', prog of thread 0, prog of thread 1, ...); a thread program is a
     string over S (set) R (reset) Y (ready) W<d> (start wait d)."""
     name = "event_v1/EventV1"; driver = "k1_event_v1"; cfg = "shim17"; handler = "eventv1"
-    maxruns = {"quick": 3000, "thorough": 60000}
-    nrandom = {"quick": 200, "thorough": 3000}
+    maxruns = {"quick": 2000, "thorough": 60000}
+    nrandom = {"quick": 100, "thorough": 3000}
     def programs(self, tier):
         q = [
             ("0", "inline", "W0", "S"),
@@ -64,8 +64,8 @@ class AutoReset(Unit):
     """program = (ready0, prog of thread 0, ...); thread program over S (set) D (set_done) N<d> (next d).
     A thread containing N is a consumer (N only)."""
     name = "auto_reset/AutoReset"; driver = "k1_auto_reset"; cfg = "shim17"; handler = "autoreset"
-    maxruns = {"quick": 3000, "thorough": 60000}
-    nrandom = {"quick": 200, "thorough": 3000}
+    maxruns = {"quick": 2000, "thorough": 60000}
+    nrandom = {"quick": 100, "thorough": 3000}
     multi = False
     def programs(self, tier):
         q = [
